@@ -647,6 +647,13 @@ theorem zipAll_imp {α β : Type} (p q : α → β → Bool) : ∀ (a : List α)
       simp only [zipAll, Bool.and_eq_true] at h' ⊢
       exact ⟨h _ _ (by simp) h'.1, zipAll_imp p q a b (fun x y hy => h x y (by simp [hy])) h'.2⟩
 
+theorem zipAll_map_eq {α β γ : Type} (p : α → γ → Bool) (f : β → γ) : ∀ (a : List α) (b : List β),
+    zipAll p a (b.map f) = zipAll (fun x y => p x (f y)) a b
+  | [], [] => rfl
+  | [], _ :: _ => rfl
+  | _ :: _, [] => rfl
+  | x :: a, y :: b => by simp [zipAll, zipAll_map_eq p f a b]
+
 theorem kindsOf_map (c : Caps) (evs : List Call) :
     kindsOf (evs.map (degradeCall c)) = (kindsOf evs).map (degradeKind c) := by
   induction evs with
@@ -704,5 +711,273 @@ theorem expect_args (s : Shape) (evs : List Call) : ∀ l ∈ expect s evs,
       exact zipAll_map_right (fun got (ka : Kind × Arg) => arrives got ka.2) (fun got (ka : Kind × Arg) => arrives got ka.2)
         (fun ka : Kind × Arg => (degradeKind c ka.1, degradeArg c ka.1 ka.2))
         (fun x y hxy => arrives_trans _ _ _ hxy (arrives_degrade c y.1 y.2)) _ _ h) s evs
+
+/-! ## TestByTestResult -/
+def proj (c : TbtCall) : Nat × Option Kind × Option Details := (c.test, c.status, c.details)
+
+/-- the callbacks as the code computes them from the test events it receives -/
+def scanM : Option Kind → Option Details → List Call → List (Nat × Option Kind × Option Details)
+  | _, _, [] => []
+  | _, _, .startTest _ :: evs => scanM none none evs
+  | _, d, .add k _ a :: evs => scanM (some (tbtStatus k)) (tbtDet k a d) evs
+  | s, d, .stopTest t :: evs => (t, s, d) :: scanM s d evs
+  | s, d, _ :: evs => scanM s d evs
+
+theorem tbt_calls : ∀ (cs : List Call) (st : TbtSt),
+    (cs.foldl tbtStep st).calls.map proj = st.calls.map proj ++ scanM st.status st.details (testEvs cs)
+  | [], st => by simp [scanM]
+  | c :: cs, st => by
+      rw [List.foldl_cons, tbt_calls cs]
+      cases c <;> simp [tbtStep, scanM, proj]
+
+/-- an outcome as it can reach a result: its argument has a form that fits the kind, and it is not the
+defective case (a failing outcome with an empty details dict) -/
+def fineCall : Call → Bool
+  | .add k _ a =>
+      (match k, a with
+       | .success, .none | .success, .details _ | .uxsuccess, .none | .uxsuccess, .details _ => true
+       | .skip, .reason _ | .skip, .details _ => true
+       | .error, .exc _ | .failure, .exc _ | .xfail, .exc _ => true
+       | .error, .details d | .failure, .details d | .xfail, .details d => !d.isEmpty
+       | _, _ => false)
+  | _ => true
+
+theorem tbtWord_eq (k : Kind) : tbtWord k = tbtStatus k := by cases k <;> rfl
+
+theorem scanM_eq : ∀ (evs : List Call) (s : Option Kind) (d : Option Details), evs.all fineCall = true →
+    scanM s d evs = tbtExpect s d evs
+  | [], _, _, _ => rfl
+  | c :: evs, s, d, h => by
+      simp only [List.all_cons, Bool.and_eq_true] at h
+      have ih := fun s d => scanM_eq evs s d h.2
+      cases c with
+      | add k t a =>
+        have : tbtDet k a d = tbtDetails a := by
+          have h1 := h.1
+          cases k <;> cases a <;> simp [fineCall] at h1 <;> simp [tbtDet, tbtDetails, errToDetails]
+          all_goals (rename_i dd; cases dd <;> simp_all)
+        simp [scanM, tbtExpect, ih, this, tbtWord_eq]
+      | _ => simp [scanM, tbtExpect, ih]
+
+theorem fine_degrade (c : Caps) (x : Call) (h : fineCall x = true) : fineCall (degradeCall c x) = true := by
+  cases x with
+  | add k t a =>
+    cases hd : c.details <;> cases hs : c.skip <;> cases hx : c.xfail <;> cases hu : c.uxs <;>
+      cases k <;> cases a <;> simp [fineCall] at h <;>
+      simp [degradeCall, degradeKind, degradeArg, fineCall, detailsToExc, hd, hs, hx, hu, h]
+  | _ => simpa [degradeCall] using h
+
+theorem fine_map (c : Caps) (evs : List Call) (h : evs.all fineCall = true) :
+    (evs.map (degradeCall c)).all fineCall = true := by
+  rw [List.all_eq_true] at h ⊢
+  intro x hx
+  obtain ⟨y, hy, rfl⟩ := List.mem_map.mp hx
+  exact fine_degrade c y (h y hy)
+
+theorem fine_tfrView (evs : List Call) (h : evs.all fineCall = true) : (tfrView evs).all fineCall = true := by
+  rw [List.all_eq_true] at h ⊢
+  intro x hx
+  simp only [tfrView, List.mem_flatMap] at hx
+  obtain ⟨y, hy, hxy⟩ := hx
+  cases y <;> simp at hxy
+  rcases hxy with rfl | rfl | rfl
+  · rfl
+  · exact h _ hy
+  · rfl
+
+def tbtOk (l : LeafTrace) (isTbt : Bool) (evs : List Call) : Bool :=
+  if isTbt then l.calls.map (fun c => (c.test, c.status, c.details)) == tbtExpect none none evs
+  else l.calls.isEmpty
+
+theorem zip3All_append {α β γ : Type} (p : α → β → γ → Bool) : ∀ (a1 : List α) (b1 : List β) (c1 : List γ) a2 b2 c2,
+    zip3All p a1 b1 c1 = true → zip3All p a2 b2 c2 = true → zip3All p (a1 ++ a2) (b1 ++ b2) (c1 ++ c2) = true
+  | [], [], [], _, _, _, _, h => by simpa using h
+  | x :: a, y :: b, z :: c, _, _, _, h1, h2 => by
+      simp only [zip3All, Bool.and_eq_true, List.cons_append] at h1 ⊢
+      exact ⟨h1.1, zip3All_append p a b c _ _ _ h1.2 h2⟩
+  | [], [], _ :: _, _, _, _, h, _ => by simp [zip3All] at h
+  | [], _ :: _, _, _, _, _, h, _ => by simp [zip3All] at h
+  | _ :: _, [], _, _, _, _, h, _ => by simp [zip3All] at h
+  | _ :: _, _ :: _, [], _, _, _, h, _ => by simp [zip3All] at h
+
+mutual
+theorem reach_tbt : ∀ (s : Shape), s.noStream = true → ∀ (st : St s) (evs : List Call),
+    Reach s st evs → (s.hasTbt = true → evs.all fineCall = true) →
+    zip3All tbtOk ((leaves s st).map observe) (isTbtLeaf s) (expectV s evs) = true
+  | .sink f, _, st, evs, _, _ => by simp [leaves, isTbtLeaf, expectV, zip3All, tbtOk, observe, LeafSt.calls]
+  | .tt ff, _, st, evs, _, _ => by simp [leaves, isTbtLeaf, expectV, zip3All, tbtOk, observe, LeafSt.calls]
+  | .text ff, _, st, evs, _, _ => by simp [leaves, isTbtLeaf, expectV, zip3All, tbtOk, observe, LeafSt.calls]
+  | .tbt, _, st, evs, ⟨cs, h1, h2⟩, hf => by
+      subst h1
+      have := tbt_calls cs (init .tbt)
+      simp only [leaves, isTbtLeaf, expectV, zip3All, tbtOk, observe, LeafSt.calls, List.map, Bool.and_true, ite_true,
+        beq_iff_eq]
+      simp only [init, List.map_nil, List.nil_append] at this
+      rw [h2, scanM_eq evs _ _ (hf rfl)] at this
+      exact this
+  | .etod ch, hn, (own, inner), evs, h, hf => by
+      simp only [leaves, isTbtLeaf, expectV]
+      exact reach_tbt ch (by simpa [Shape.noStream] using hn) inner _ h
+        (fun ht => fine_map _ _ (hf (by simpa [Shape.hasTbt] using ht)))
+  | .tfr ch, hn, (own, inner), evs, h, hf => by
+      simp only [leaves, isTbtLeaf, expectV]
+      exact reach_tbt ch (by simpa [Shape.noStream] using hn) inner _ h
+        (fun ht => fine_tfrView _ (hf (by simpa [Shape.hasTbt] using ht)))
+  | .deco ch, hn, st, evs, h, hf => by
+      simp only [leaves, isTbtLeaf, expectV]
+      exact reach_tbt ch (by simpa [Shape.noStream] using hn) st _ h (fun ht => hf (by simpa [Shape.hasTbt] using ht))
+  | .tagger _ _ ch, hn, st, evs, h, hf => by
+      simp only [leaves, isTbtLeaf, expectV]
+      exact reach_tbt ch (by simpa [Shape.noStream] using hn) st _ h (fun ht => hf (by simpa [Shape.hasTbt] using ht))
+  | .multi ss, hn, (own, inner), evs, h, hf => by
+      simp only [leaves, isTbtLeaf, expectV]
+      exact reachL_tbt ss (by simpa [Shape.noStream] using hn) inner _ h (fun ht => hf (by simpa [Shape.hasTbt] using ht))
+  | .e2s _, hn, _, _, _, _ => by simp [Shape.noStream] at hn
+theorem reachL_tbt : ∀ (ss : List Shape), Shape.noStreamL ss = true → ∀ (st : StL ss) (evs : List Call),
+    ReachL ss st evs → (Shape.hasTbtL ss = true → evs.all fineCall = true) →
+    zip3All tbtOk ((leavesL ss st).map observe) (isTbtLeafL ss) (expectVL ss evs) = true
+  | [], _, _, _, _, _ => by simp [leavesL, isTbtLeafL, expectVL, zip3All]
+  | s :: ss, hn, (x, xs), evs, h, hf => by
+      simp only [Shape.noStreamL, Bool.and_eq_true] at hn
+      simp only [leavesL, isTbtLeafL, expectVL, List.map_append]
+      exact zip3All_append _ _ _ _ _ _ _
+        (reach_tbt s hn.1 x evs h.1 (fun ht => hf (by simp [Shape.hasTbtL, ht])))
+        (reachL_tbt ss hn.2 xs evs h.2 (fun ht => hf (by simp [Shape.hasTbtL, ht])))
+end
+
+/-- **C08 (TestByTestResult, what is reported).**  Whatever adapters sit above a `TestByTestResult`, its
+callbacks are exactly one per `stopTest` it is to receive, each carrying the test, the status word of the
+outcome reported since the `startTest` (`tbtWord`) and that outcome's details (`tbtDetails`) — provided no
+error / failure / expected failure comes with an *empty* details dict (finding `tbtEmptyDetails`). -/
+theorem C08_tbt_partial (s : Shape) (hs : s.noStream = true) (h : List Call)
+    (hf : (testEvs h).all fineCall = true) :
+    zip3All tbtOk ((leaves s (run s (init s) h)).map observe) (isTbtLeaf s) (expectV s (testEvs h)) = true :=
+  reach_tbt s hs _ _ (C08_reach s hs h) (fun _ => hf)
+
+/-! ### times and tags of a directly used TestByTestResult -/
+theorem tbt_root : ∀ (cs : List Call) (st : TbtSt),
+    (cs.foldl tbtStep st).calls.map (fun c => (c.start, c.stop, c.tags))
+      = st.calls.map (fun c => (c.start, c.stop, c.tags)) ++ rootExpect st.tt.now st.tt.tags st.start cs
+  | [], st => by simp [rootExpect]
+  | c :: cs, st => by
+      rw [List.foldl_cons, tbt_root cs]
+      cases c with
+      | add k t a => cases k <;> simp [tbtStep, ttStep, rootExpect, Call.logged]
+      | _ => simp [tbtStep, ttStep, rootExpect, TT.reset, TT.clock, Call.logged]
+
+/-- **C08 (TestByTestResult, times and tags).**  Used directly, a `TestByTestResult` reports for the n-th
+`stopTest` the time current at the matching `startTest` and at the `stopTest` (the value last given to
+`time()` in this run, else the wall clock) and the tags current just before the `stopTest`. -/
+theorem C08_tbt_times_tags (h : List Call) :
+    (run .tbt (init .tbt) h : TbtSt).calls.map (fun c => (c.start, c.stop, c.tags))
+      = rootExpect .none {} .none h := by
+  have := tbt_root h (init .tbt)
+  simpa [run, step, init] using this
+
+/-! ## the executable specification holds of the model -/
+theorem unique_of_noDup : ∀ (d : Details), hasDupNames (d.map (·.1)) = false → UniqueNames d
+  | [], _ => by intro p hp; simp at hp
+  | x :: d, h => by
+      simp only [List.map_cons, hasDupNames, Bool.or_eq_false_iff, List.contains_eq_mem, decide_eq_false_iff_not,
+        List.mem_map, not_exists, not_and] at h
+      have ih := unique_of_noDup d h.2
+      intro p hp q hq hpq
+      rcases List.mem_cons.mp hp with hp1 | hp1 <;> rcases List.mem_cons.mp hq with hq1 | hq1
+      · rw [hp1, hq1]
+      · subst hp1; exact absurd hpq.symm (h.1 q hq1)
+      · subst hq1; exact absurd hpq (h.1 p hp1)
+      · exact ih p hp1 q hq1 hpq
+
+theorem model_leafEvs (i : Input) : (model i).map leafEvs = (leaves i.shape (run i.shape (init i.shape) i.hist)).map tlog := by
+  simp [model, List.map_map]; intro l _; rfl
+
+theorem ok_unique (h : List Call) (hok : h.all Call.ok = true) :
+    ∀ ka ∈ kaOf (testEvs h), ∀ d, ka.2 = Arg.details d → UniqueNames d := by
+  intro ka hka d hd
+  simp only [kaOf, List.mem_filterMap] at hka
+  obtain ⟨c, hc, hck⟩ := hka
+  have hc' : c ∈ h := (List.mem_filter.mp hc).1
+  have := (List.all_eq_true.mp hok) c hc'
+  cases c <;> simp at hck
+  subst hck
+  simp only at hd
+  subst hd
+  simp only [Call.ok, argOk, detailsOk, Bool.and_eq_true, Bool.not_eq_true'] at this
+  exact unique_of_noDup d this.1
+
+theorem ok_fine (h : List Call) (hok : h.all Call.ok = true)
+    (hb : (h.any fun
+      | .add .error _ (.details []) | .add .failure _ (.details []) | .add .xfail _ (.details []) => true
+      | _ => false) = false) : (testEvs h).all fineCall = true := by
+  rw [List.all_eq_true]
+  intro c hc
+  have hc' : c ∈ h := (List.mem_filter.mp hc).1
+  have h1 := (List.all_eq_true.mp hok) c hc'
+  have h2 : _ = false := (List.any_eq_false.mp hb) c hc' |> Bool.eq_false_iff.mpr
+  cases c with
+  | add k t a =>
+    cases k <;> cases a <;> simp [Call.ok, argOk] at h1 <;> simp [fineCall]
+    all_goals (rename_i d; cases d <;> simp_all)
+  | _ => rfl
+
+/-- **Headline.**  The executable specification `Spec.C08.holds` is true of the model's trace for every input
+outside the known-finding class `tbtEmptyDetails`. -/
+theorem holds_model_partial (i : Input) (hc : tbtEmptyDetails i = false) : holds i (model i) = true := by
+  simp only [holds, clauses, List.all_cons, List.all_nil, Bool.and_true, Bool.and_eq_true]
+  have key : inScope i = true → (i.hist.all Call.ok = true ∧ i.shape.noStream = true ∧
+      (wfEvs (testEvs i.hist) = true ∨ i.shape.hasTfr = false)) := by
+    intro h
+    simp only [inScope, Bool.and_eq_true, Bool.or_eq_true, Bool.not_eq_true'] at h
+    exact ⟨h.1.1, h.1.2, h.2⟩
+  have fwd : inScope i = true → (model i).map leafEvs = expect i.shape (testEvs i.hist) := by
+    intro h
+    obtain ⟨_, hn, hw⟩ := key h
+    rw [model_leafEvs]; exact C08_forward_wf _ hn _ hw
+  refine ⟨?_, ?_, ?_, ?_, ?_⟩
+  · -- forward
+    cases hs : inScope i
+    · simp [cForward, hs]
+    · simp [cForward, hs, fwd hs]
+  · -- no pass from fail
+    cases hs : inScope i
+    · simp [cNoPassFromFail, hs]
+    · simp only [cNoPassFromFail, hs, Bool.not_true, Bool.false_or, List.all_eq_true]
+      intro l hl
+      have : leafEvs l ∈ expect i.shape (testEvs i.hist) := by
+        rw [← fwd hs]; exact List.mem_map_of_mem hl
+      have := expect_kinds _ _ _ this
+      rwa [kindsOf_testEvs] at this
+  · -- details text
+    cases hs : inScope i
+    · simp [cDetailsText, hs]
+    · simp only [cDetailsText, hs, Bool.not_true, Bool.false_or, List.all_eq_true]
+      intro l hl
+      obtain ⟨hok, _, _⟩ := key hs
+      have : leafEvs l ∈ expect i.shape (testEvs i.hist) := by
+        rw [← fwd hs]; exact List.mem_map_of_mem hl
+      have h1 := expect_args _ _ _ this
+      have h2 := zipAll_imp _ (fun got (ka : Kind × Arg) => textKept got ka.2) _ _
+        (fun x y hy hxy => arrives_textKept x y.2 (ok_unique _ hok y hy) hxy) h1
+      rw [← argsOf_testEvs i.hist, ← kaOf_snd (testEvs i.hist), zipAll_map_eq]
+      exact h2
+  · -- tbt
+    cases hs : inScope i
+    · simp [cTbt, hs]
+    · simp only [cTbt, hs, Bool.not_true, Bool.false_or]
+      obtain ⟨hok, hn, hw⟩ := key hs
+      have := reach_tbt i.shape hn _ _ (C08_reach i.shape hn i.hist) (fun ht => by
+        simp only [tbtEmptyDetails, ht, Bool.true_and] at hc
+        exact ok_fine _ hok hc)
+      rw [expectV_eq _ _ (hw.imp (tfrView_wf _) id)] at this
+      exact this
+  · -- tbt used directly
+    obtain ⟨sh, hist⟩ := i
+    cases sh <;> try (simp [cTbtRoot])
+    have := C08_tbt_times_tags hist
+    have hm : model { shape := Shape.tbt, hist := hist }
+        = [observe (.tbt (run .tbt (init .tbt) hist))] := rfl
+    rw [hm]
+    simp only [observe, LeafSt.calls, Bool.or_eq_true, beq_iff_eq]
+    exact .inr this
 
 end TTV.Props.C08
